@@ -60,6 +60,27 @@ NEEDS.update({
  'C17-3': ("C17","an oversized component in an incomplete core (`900719925474100`, `1.900719925474100.`)","MISSED at first (the kind rule required an otherwise valid version); caught after adding the prefix form of the rule and the incomplete-core family"),
  'C18-3': ("C18","two different large components in one tuple (bitwise OR above MAX_SAFE_INTEGER, wrong mask)",""),
 })
+
+NEEDS.update({
+ 'C01-4': ("C01","`~>` (not `~`) on a full version carrying a prerelease tag (`~>1.2.3-beta.2`)",""),
+ 'C02-4': ("C02","an alternative that starts with a stray `-` after `|| ` (`1 || - 3`): blanks after `||` no longer consumed","written against the tree before fix b75c1d9; on that tree C01 alarms (stray `-` token family); the fix of the loose hyphen form (` - 3` now means `3`) makes this change behaviour-neutral on HEAD"),
+ 'C03-4': ("C03","two `||` alternatives: the tag in one, the bounds met by the other (`>=1.0.0 || 2.0.0-beta.1` with 2.0.0-beta.2)",""),
+ 'C04-4': ("C04","max/min_satisfying with several satisfying prereleases of one triple in an unlucky list order","caught by C14 from the start; by C04 itself after adding the resolver entry points to its list sweep"),
+ 'C05-4': ("C05","serde Deserialize from a non-borrowing source (escape sequences in the JSON text, from_value, from_reader); feature `serde` only","caught by C05 (`serde` clause on inputs with a tab) from the start; the from_value / from_reader observation was added afterwards; the demo needs `--features serde`"),
+ 'C06-4': ("C06","range bounds carrying build metadata in a two-sided difference (derived PartialEq compares build; unwrap on None)",""),
+ 'C07-4': ("C07","inclusive bounds meeting at one version whose build metadata differs (`>=1.2.3+build.5` with `<=1.2.3`)",""),
+ 'C08-4': ("C08","a remainder that contains only prereleases (`>1.0.0 \\ >=1.0.1`) or only 0.0.0 prereleases (`<1.0.0 \\ *`)",""),
+ 'C09-4': ("C09","bounds overlap containing no satisfiable version (`>1.2.3` vs `<1.2.4`, `<*`)",""),
+ 'C10-4': ("C10","B an exact prerelease version inside A's bounds, A without a tag on that triple (allows_any through satisfies)",""),
+ 'C11-4': ("C11","an open-below alternative next to an alternative whose floor is a prerelease of 0.0.0 (`<1.0.0 || >=0.0.0-alpha`)","MISSED at first (no comparator on a 0.0.0 prerelease in the alternative set); caught after adding `0.0.0-a` to the core partials"),
+ 'C12-4': ("C12","HISTORY: two consecutive to_string() calls on versions equal up to build metadata (thread-local Display memo keyed by ==)","detected during exploration (consecutive built values are such siblings); not reproducible when the case is replayed in isolation, reported as a hidden-state violation"),
+ 'C13-4': ("C13","a bare version directly followed by `||` without blank (what Display prints) in a non-last alternative",""),
+ 'C14-4': ("C14","a multi-alternative range with an exact / inclusive-ended alternative, the boundary version in the list before a better element",""),
+ 'C15-4': ("C15","range comparators carrying build metadata at coinciding bounds (Version::eq compares build) — same idea as C10-2",""),
+ 'C16-4': ("C16","equal prerelease tags and different build metadata (build tie-break in Version::cmp)",""),
+ 'C17-4': ("C17","a rejected range whose text starts with blanks (input() loses them)",""),
+ 'C18-4': ("C18","HISTORY: Version::parse of `X+build` immediately followed by parse of `X` (thread-local parse memo keyed without build)","caught by C05 / C12 from the start (the input-tree walk visits such siblings consecutively); by C18 itself after adding a sibling parse before each comparison"),
+})
 rows=[]
 for sid,(prop,needs,note) in sorted(NEEDS.items()):
     d=f'/verif/seeded/{sid}'
